@@ -75,19 +75,11 @@ def judgeGroup0 (crit : String) (tornTol : Bool) (ops : List Op) (ok : List Bool
         | some i => if isCommitPoint ops i
             then some (diffState tables (expectedAfter ops (ok.set i true) (i + 1)) got) else none
         | none => none
-      match crit with
-      | "crash01" =>
-        let okB := match b with | some dB => dB.lost.isEmpty | none => false
-        if dA.lost.isEmpty || okB then none else some s!"k={g.k} lost={dA.lost}"
-      | "crash02" =>
-        let okB := match b with | some dB => dB.extra.isEmpty && subList dB.lost dA.lost | none => false
-        if dA.extra.isEmpty || okB then none else some s!"k={g.k} extra={dA.extra}"
-      | "crash08" =>
-        if g.again != "same" then some s!"k={g.k} again={g.again}"
-        else if g.probe != "ok" then some s!"k={g.k} probe={g.probe}"
-        else if g.nest == "-" ∨ g.nest.startsWith "ok:" then none
+      -- crash points inside recovery (`done/all:what` per failing point): an interrupted and restarted recovery must
+      -- end in the contents of the uninterrupted one
+      let nestProblem : Option String :=
+        if g.nest == "-" ∨ g.nest.startsWith "ok:" then none
         else
-          -- crash points inside recovery: `done/all:what` per failing point
           let bad := (g.nest.splitOn ",").filter (fun e =>
             match e.splitOn ":" with
             | ph :: _ =>
@@ -96,6 +88,17 @@ def judgeGroup0 (crit : String) (tornTol : Bool) (ops : List Op) (ok : List Bool
               | _ => true
             | [] => true)
           if bad.isEmpty then none else some s!"k={g.k} inside-recovery={bad.take 3}"
+      match crit with
+      | "crash01" =>
+        let okB := match b with | some dB => dB.lost.isEmpty | none => false
+        if dA.lost.isEmpty || okB then nestProblem else some s!"k={g.k} lost={dA.lost}"
+      | "crash02" =>
+        let okB := match b with | some dB => dB.extra.isEmpty && subList dB.lost dA.lost | none => false
+        if dA.extra.isEmpty || okB then none else some s!"k={g.k} extra={dA.extra}"
+      | "crash08" =>
+        if g.again != "same" then some s!"k={g.k} again={g.again}"
+        else if g.probe != "ok" then some s!"k={g.k} probe={g.probe}"
+        else nestProblem
       | _ => some "bad-criterion"
 
 /-! Region features of a workload prefix (ops with index ≤ p), used to attribute failures to listed findings. -/
